@@ -1309,6 +1309,22 @@ func classifyResult(w *World, h *ssa.Function, at ssa.Instruction, v ssa.Value, 
 		if ea.V == nil {
 			continue
 		}
+		// a successful type assertion x.(T) implies x != nil
+		if wantNil && ea.Kind == "true" {
+			if ex, ok := ea.V.(*ssa.Extract); ok && ex.Index == 1 {
+				if ta, ok := ex.Tuple.(*ssa.TypeAssert); ok {
+					ea = Atom{Kind: "nonnil", V: ta.X}
+				}
+			}
+		}
+		if wantNil && ea.Kind == "nonnil" {
+			// errors.Unwrap(v) != nil implies v != nil
+			if uc := valueCall(ea.V); uc != nil {
+				if d, ok := describeCallee(uc); ok && d.Pkg == "errors" && d.Name == "Unwrap" && len(uc.Common().Args) == 1 && sameValue(uc.Common().Args[0], v) {
+					return nil
+				}
+			}
+		}
 		if sameValue(ea.V, v) {
 			if wantNil && ea.Kind == "nonnil" {
 				return nil
